@@ -55,8 +55,11 @@ def cases(draw, switches):
     arrays = []  # (name, kind, bounds, dimmed)
     dims = []
     narr = d(st.integers(0, 3))
-    for name in d(st.lists(st.sampled_from(["P", "Q", "R", "G", "H"]), min_size=narr, max_size=narr, unique=True)):
+    # array names overlap with scalar names on purpose: A / A(), S$ / S$() are four different variables
+    for name in d(st.lists(st.sampled_from(["P", "Q", "R", "G", "H", "A", "B", "S", "T"]), min_size=narr, max_size=narr, unique=True)):
         kind = d(st.sampled_from(["arr", "arr", "sarr"]))
+        if name in ("A", "B", "S", "T"):
+            feats.add("array_named_like_a_scalar")
         dimmed = d(st.booleans())
         if dimmed:
             nd = d(st.integers(1, 3))
